@@ -114,7 +114,7 @@ func resolverExtensions(meta *gen.Meta, thorough bool) (int, error) {
 		}
 		var cases []xeng.Case
 		for k := 0; k < reps; k++ {
-			q := `query Op { a { a1 } b { id } nodes { id } as { a1 } scalar strict items { id } }`
+			q := `query Op { a { a1 } b { id } nodes { id } as { a1 } scalar strict items { name } }`
 			if k%2 == 1 {
 				q = `query Op { as { id kids { id } peer { id } } }`
 			}
@@ -127,7 +127,9 @@ func resolverExtensions(meta *gen.Meta, thorough bool) (int, error) {
 		for k, r := range res {
 			n++
 			if r.Crashed || r.Hang || len(r.Responses) == 0 {
-				continue // reported by the main pass
+				meta.Direct = append(meta.Direct, gen.DirectFinding{Signature: "no-response", What: fmt.Sprintf("config %s, %s: no response (crashed=%v hang=%v create errors %s)", p.Cfg.Name, cases[k].Query, r.Crashed, r.Hang, string(r.CreateErrors)),
+					Replay: map[string]any{"config": p.Cfg.Name, "query": cases[k].Query}})
+				break
 			}
 			var resp struct {
 				Extensions map[string]any `json:"extensions"`
